@@ -35,8 +35,13 @@ def run(ctx):
     jobs = []
     for ci in range(N):
         lattice = bool(rng.random() < 0.35)
-        f = F.gen_forest(rng, 3, nmax, lattice=lattice, zero_edges=False,
-                         shape=str(rng.choice(['rrt', 'rrt', 'caterpillar', 'binary', 'star', 'isolated+tree'])))
+        kind = str(rng.choice(['twigs', 'twigs', 'exact', 'strahler', 'strahler', 'depth', 'longest']))
+        if kind == 'strahler' and rng.random() < 0.5:
+            # deep binary trees: Strahler orders up to 4, so that non-contiguous selections leave kept nodes between removed ones
+            f = F.gen_forest(rng, 15, max(16, nmax), lattice=lattice, zero_edges=False, shape='binary')
+        else:
+            f = F.gen_forest(rng, 3, nmax, lattice=lattice, zero_edges=False,
+                             shape=str(rng.choice(['rrt', 'rrt', 'caterpillar', 'binary', 'star', 'isolated+tree'])))
         w = weights(f, lattice)
         if any(v == 0 for v in w.values()):
             continue
@@ -50,7 +55,6 @@ def run(ctx):
             x = F.mk_neuron(f, connectors=cn)
             prev_conn = sorted((int(c), int(n)) for c, n in zip(cn.connector_id.values, cn.node_id.values)) if cn is not None else []
             nt = F.nontrivial(f)
-            kind = str(rng.choice(['twigs', 'twigs', 'exact', 'strahler', 'strahler', 'depth', 'longest']))
             desc = dict(forest=f, lattice=lattice, op=kind, backend=be)
             size = float(rng.integers(0, 12)) + 0.5 if lattice else float(rng.uniform(0.1, 40))
             if kind == 'twigs':
@@ -91,7 +95,7 @@ def run(ctx):
                 rounds = 'None' if rec is True else '(Some %d%%nat)' % (0 if rec is False else int(rec))
                 mterm = 'None' if mask is None else '(Some %s)' % term(mask)
                 jobs.append(dict(desc=desc, nt=nt, key=(str(f['ids']), str(f['xyz']), kind, str(p)),
-                                 exprs=['(out (prune_twigs %s %s %s %s %s), partial_mask_met %s %s %s %s %s)' % ((rounds, T, W, term(Fraction(size)), mterm) * 2)],
+                                 exprs=['(out (prune_twigs %s %s %s %s %s), partial_mask_met %s %s %s %s %s, chain_mask_met %s %s %s %s %s)' % ((rounds, T, W, term(Fraction(size)), mterm) * 3)],
                                  cmp=_cmp_table(st, res, x)))
             elif kind == 'exact':
                 p = dict(size=size)
@@ -107,7 +111,9 @@ def run(ctx):
                     k = int(rng.integers(-4, 5))
                     arg, sel = k, 'SInt %s' % term(k)
                 elif sel_kind == 1:
-                    l = sorted(set(int(v) for v in rng.integers(1, 5, size=int(rng.integers(1, 3)))))
+                    l = sorted(set(int(v) for v in rng.integers(1, 5, size=int(rng.integers(1, 4)))))
+                    if rng.random() < 0.3:
+                        l = l[::-1]
                     arg, sel = l, 'SList %s' % term(l)
                 elif sel_kind == 2:
                     a = int(rng.integers(1, 4)); b = a + int(rng.integers(0, 3))
@@ -182,8 +188,10 @@ def _cmp_table(st, res, x):
         got = _rows(res)
         partial = False
         rows0 = r[0]
-        if isinstance(rows0, tuple) and len(rows0) == 2 and isinstance(rows0[1], bool):
-            rows0, partial = rows0        # (table, some pruning round met a terminal branch only partly inside the mask)
+        chain = False
+        if isinstance(rows0, tuple) and len(rows0) == 3 and isinstance(rows0[1], bool):
+            # (table, some round met a terminal branch only partly inside the mask, some round met an unbranched fragment with a masked tip)
+            rows0, partial, chain = rows0
         exp = [tuple(a) for a in rows0]
         if sorted(a for a, _ in got) != sorted(a for a, _ in exp):
             diff = set(a for a, _ in got) ^ set(a for a, _ in exp)
@@ -201,7 +209,8 @@ def _cmp_table(st, res, x):
                         i = par[i]
                     return i
                 branched_roots = set(root_of(i) for i in f['ids'] if nch.get(i, 0) >= 2)
-                if all(root_of(i) not in branched_roots for i in diff):
+                only_removed = not (set(a for a, _ in got) - set(a for a, _ in exp))
+                if all(root_of(i) not in branched_roots for i in diff) or (chain and only_removed and all(i in set(desc['params']['mask']) for i in diff)):
                     key = 'C12:twigs-mask-unbranched-fragment'
                 elif partial:
                     key = 'C12:twigs-mask-partial-twig'
